@@ -76,10 +76,11 @@ static std::vector<double> alphabet(char kind, double base, bool T) {
   case 'l': add({NAN, inf, -inf, 0.0, -0.0, -1, 1e-320, 1e308, 1, 2, 90, -90, up90, -up90, 45}); if (T) add({dn90, -dn90, -45, 89.999999, 180, -180, 270, 91, 1e-300}); break;
   case 's': add({NAN, inf, -inf, 0.0, -0.0, -1, 1e-320, 1e308, 1, up1, 2, 0.6}); if (T) add({-0.6, 0.8, -up1, 1e-300, std::nextafter(1.0, 0.0)}); break;
   case 'c': add({NAN, inf, -inf, 0.0, -0.0, -1, 1e-320, 1e308, 1, up1, 2, 0.8}); if (T) add({-0.8, 0.6, -1e-320, 1e-300, std::nextafter(1.0, 0.0)}); break;
+  case 'e': add({NAN, 0.0, -0.0, -1, 1e-320, 1, up1, 2}); if (T) add({0.5, -0.5, 1e-300, 5e-324, -2, 1e10, -1e10, std::nextafter(1.0, 0.0)}); break;     // elliptic parameters; +-inf, +-1e308: see singles_only
   case 'r': add({NAN, inf, -inf, 0.0, -0.0, -1, 1e-320, 1e308, 1, up1, 2}); if (T) add({-1e308, 0.5, -0.5, 1e-300, 5e-324, -2, 1e10}); break;
   case 'g': add({NAN, inf, -inf, 0.0, -0.0, -1, 1e-320, 1e308, 1, up1, 2, -180, 90, up90}); if (T) add({-1e308, 180, 360, -360, 720, 1e10, -90, 5e-324, 1e19}); break;     // general angle / coordinate
   case 'i': for (long long x : fault::int_specials(T)) v.push_back((double)x); if (T) add({3, 5, 10, 11, 255, 256, 46340, 46341}); break;
-  case 'n': add({-2, -1, 0, 1, 2, 3, 4, 5, 6, 10}); if (T) add({7, 8, 9, 15, 21}); break;      // small counts
+  case 'n': add({0, 1, 2, 3, 4, 5, 6, 10}); if (T) add({7, 8, 9, 15, 21}); break;      // small counts
   case 'b': add({0, 1}); return v;
   }
   bool has = false; for (double x : v) if (mc::same_bits(x, base)) has = true;
@@ -87,6 +88,12 @@ static std::vector<double> alphabet(char kind, double base, bool T) {
   return v;
 }
 
+// values used in SINGLE substitutions only (never in products): EllipticFunction hangs on each of them (open known
+// finding) and every hang costs at least the 2 s watchdog
+static std::vector<double> singles_only(char kind) {
+  if (kind == 'e') return {INFINITY, -INFINITY, 1e308, -1e308};
+  return {};
+}
 // ------------------------------------------------------------------------------------------- registry
 template <class G> static void geod_smoke(const G& g, double a) {
   double s12, azi1, azi2, m12, M12, M21, S12, lat2, lon2;
@@ -135,9 +142,9 @@ static std::vector<Ctor> make_ctors() {
   add("AlbersEqualArea::SetScale(lat,k)", "lat:l k:k", {{45, 1}, {-30, 0.9996}}, [](const double* a) { return ctorv::albers_setscale(a[0], a[1]); }, [](const double* a, int& st) { AlbersEqualArea p(6378137, 1 / 298.257223563, 40, 1); p.SetScale(a[0], a[1]); st = 1; proj_smoke(p); });
   add("NormalGravity(a,GM,omega,f_J2,geometricp)", "a:a GM:r omega:r f_J2:f geometricp:b", {{A, 3.986004418e14, 7.292115e-5, F, 1}, {A, 3.986005e14, 7.292115e-5, 1.08263e-3, 0}}, [](const double* a) { return ctorv::normalgravity(a[0], a[1], a[2], a[3], a[4] != 0); },
       [](const double* a, int& st) { NormalGravity n(a[0], a[1], a[2], a[3], a[4] != 0); st = 1; double gy, gz, x, y, z; volatile double s = n.SurfaceGravity(40) + n.Gravity(40, 1000, gy, gz) + n.U(a[0], 1, 2, x, y, z) + n.V0(a[0], 1, 2, x, y, z) + n.Phi(a[0], 1, x, y) + n.DynamicalFormFactor(2) + n.DynamicalFormFactor(8) + n.Flattening(); (void)s; });
-  add("EllipticFunction(k2,alpha2)", "k2:r alpha2:r", {{0.5, 0.25}, {-3, 1}}, [](const double* a) { return ctorv::elliptic2(a[0], a[1]); }, [](const double* a, int& st) { EllipticFunction e(a[0], a[1]); st = 1; volatile double s = e.K() + e.E() + e.D() + e.Pi() + e.G() + e.H() + e.F(0.7) + e.E(0.7) + e.Ed(40) + e.Einv(0.5) + e.Pi(0.7) + e.G(0.7) + e.H(0.7) + e.D(0.7) + e.am(0.4); double sn, cn, dn; e.sncndn(0.4, sn, cn, dn); (void)s; });
-  add("EllipticFunction(k2,alpha2,kp2,alphap2)", "k2:r alpha2:r kp2:r alphap2:r", {{0.5, 0.25, 0.5, 0.75}, {-3, 1, 4, 0}}, [](const double* a) { return ctorv::elliptic4(a[0], a[1], a[2], a[3]); }, [](const double* a, int& st) { EllipticFunction e(a[0], a[1], a[2], a[3]); st = 1; volatile double s = e.K() + e.E() + e.D() + e.Pi() + e.G() + e.H() + e.F(0.7) + e.E(0.7) + e.Ed(40) + e.Einv(0.5); (void)s; });
-  add("EllipticFunction::Reset(k2,alpha2)", "k2:r alpha2:r", {{0.5, 0.25}}, [](const double* a) { return ctorv::elliptic2(a[0], a[1]); }, [](const double* a, int& st) { EllipticFunction e(0.1, 0.2); e.Reset(a[0], a[1]); st = 1; volatile double s = e.K() + e.F(0.3); (void)s; });
+  add("EllipticFunction(k2,alpha2)", "k2:e alpha2:e", {{0.5, 0.25}, {-3, 1}}, [](const double* a) { return ctorv::elliptic2(a[0], a[1]); }, [](const double* a, int& st) { EllipticFunction e(a[0], a[1]); st = 1; volatile double s = e.K() + e.E() + e.D() + e.Pi() + e.G() + e.H() + e.F(0.7) + e.E(0.7) + e.Ed(40) + e.Einv(0.5) + e.Pi(0.7) + e.G(0.7) + e.H(0.7) + e.D(0.7) + e.am(0.4); double sn, cn, dn; e.sncndn(0.4, sn, cn, dn); (void)s; });
+  add("EllipticFunction(k2,alpha2,kp2,alphap2)", "k2:e alpha2:e kp2:e alphap2:e", {{0.5, 0.25, 0.5, 0.75}, {-3, 1, 4, 0}}, [](const double* a) { return ctorv::elliptic4(a[0], a[1], a[2], a[3]); }, [](const double* a, int& st) { EllipticFunction e(a[0], a[1], a[2], a[3]); st = 1; volatile double s = e.K() + e.E() + e.D() + e.Pi() + e.G() + e.H() + e.F(0.7) + e.E(0.7) + e.Ed(40) + e.Einv(0.5); (void)s; });
+  add("EllipticFunction::Reset(k2,alpha2)", "k2:e alpha2:e", {{0.5, 0.25}}, [](const double* a) { return ctorv::elliptic2(a[0], a[1]); }, [](const double* a, int& st) { EllipticFunction e(0.1, 0.2); e.Reset(a[0], a[1]); st = 1; volatile double s = e.K() + e.F(0.3); (void)s; });
   add("Intersect(Geodesic(a,f,exact))", "a:a f:f", AF, [](const double* a) { return ctorv::intersect(a[0], a[1]); }, [](const double* a, int& st) { Geodesic g(a[0], a[1], true); Intersect x(g); st = 1; int c; auto p = x.Closest(0, 0, 45, 1, 2, -30, Intersect::Point(0, 0), &c); auto q = x.Next(0, 0, 45, 80, &c); (void)p; (void)q; });
   // --- objects that document no exception ("never throws"): any tuple is VALID
   auto always = [](const double*) { return ctorv::VALID; };
@@ -156,14 +163,14 @@ static std::vector<Ctor> make_ctors() {
       [](const double* a, int& st) { std::vector<double> C((size_t)a[1], 0.5), S((size_t)a[2], 0.25); C.shrink_to_fit(); S.shrink_to_fit(); SphericalHarmonic h(C, S, (int)a[0], 6.4e6); st = 1; double gx, gy, gz; volatile double v = h(7e6, 1e5, 2e5) + h(7e6, 1e5, 2e5, gx, gy, gz) + h.Circle(6e6, 1e6, true)(30.0); (void)v; });
   add("SphericalHarmonic(C,S,N,nmx,mmx,a)", "N:i nmx:i mmx:i csize:n ssize:n", {{2, 2, 1, 6, 3}, {3, 2, 2, 10, 6}, {-1, -1, -1, 0, 0}}, [](const double* a) { return ctorv::sph3((long long)a[0], (long long)a[1], (long long)a[2], (long long)a[3], (long long)a[4]); },
       [](const double* a, int& st) { std::vector<double> C((size_t)a[3], 0.5), S((size_t)a[4], 0.25); C.shrink_to_fit(); S.shrink_to_fit(); SphericalHarmonic h(C, S, (int)a[0], (int)a[1], (int)a[2], 6.4e6); st = 1; double gx, gy, gz; volatile double v = h(7e6, 1e5, 2e5, gx, gy, gz) + h.Circle(6e6, 1e6, false)(30.0); (void)v; });
-  add("SphericalHarmonic1(C,S,N,C1,S1,N1,a)", "N:i N1:i", {{2, 1}, {2, -1}, {1, 1}}, [](const double* a) { long long N = (long long)a[0], N1 = (long long)a[1]; if (!(N1 <= N && N1 >= -1)) return ctorv::INVALID; if (ctorv::sph(N, 6, 3) == ctorv::INVALID || ctorv::sph(N1, 6, 3) == ctorv::INVALID) return ctorv::INVALID; return ctorv::VALID; },
+  add("SphericalHarmonic1(C,S,N,C1,S1,N1,a)", "N:i N1:i", {{2, 1}, {2, -1}, {1, 1}}, [](const double* a) { long long N = (long long)a[0], N1 = (long long)a[1]; if (!(N1 <= N && N1 >= -1)) return ctorv::inv("degree-range"); if (ctorv::sph(N, 6, 3) == ctorv::INVALID || ctorv::sph(N1, 6, 3) == ctorv::INVALID) return ctorv::INVALID; return ctorv::VALID; },
       [](const double* a, int& st) { std::vector<double> C(6, 0.5), S(3, 0.25), C1(6, 0.1), S1(3, 0.2); C.shrink_to_fit(); S.shrink_to_fit(); C1.shrink_to_fit(); S1.shrink_to_fit(); SphericalHarmonic1 h(C, S, (int)a[0], C1, S1, (int)a[1], 6.4e6); st = 1; double gx, gy, gz; volatile double v = h(0.5, 7e6, 1e5, 2e5, gx, gy, gz) + h.Circle(0.5, 6e6, 1e6, true)(30.0); (void)v; });
   add("DST(N)", "N:i", {{4}, {0}}, always, [](const double* a, int& st) { DST d((int)a[0]); st = 1; if (d.N() > 0 && d.N() <= 64) { std::vector<double> F(2 * d.N()); d.transform([](double x) { return std::sin(x) + 0.5 * std::sin(3 * x); }, F.data()); d.refine([](double x) { return std::sin(x); }, F.data()); volatile double v = DST::eval(0.6, 0.8, F.data(), d.N()) + DST::integral(0.6, 0.8, F.data(), d.N()); (void)v; } d.reset((int)a[0] / 2); });
   add("PolygonArea(geod,polyline)+Gnomonic+AzimuthalEquidistant", "polyline:b", {{0}}, always, [](const double* a, int& st) { PolygonArea p(Geodesic::WGS84(), a[0] != 0); Gnomonic g(Geodesic::WGS84()); AzimuthalEquidistant ae(Geodesic::WGS84()); st = 1; p.AddPoint(1, 2); p.AddPoint(3, 4); p.AddEdge(30, 1e5); double per, area; p.Compute(false, true, per, area); double x, y, la, lo; g.Forward(1, 2, 3, 4, x, y); g.Reverse(1, 2, x, y, la, lo); ae.Forward(1, 2, 3, 4, x, y); ae.Reverse(1, 2, x, y, la, lo); });
   // --- file-backed objects: a missing file must be refused with GeographicErr; truncation arguments on valid tiny files
-  add("Geoid(name,path,cubic,threadsafe)", "missing:b cubic:b threadsafe:b", {{0, 1, 0}}, [](const double* a) { return a[0] != 0 ? ctorv::INVALID : ctorv::VALID; }, [](const double* a, int& st) { Geoid g(a[0] != 0 ? "nosuchfile" : "tiny", g_dir, a[1] != 0, a[2] != 0); st = 1; volatile double v = g(10, 20) + g(-90, 0) + g(90, 359); (void)v; });
-  add("MagneticModel(name,path,earth,Nmax,Mmax)", "missing:b Nmax:i Mmax:i", {{0, -1, -1}, {0, 2, 1}}, [](const double* a) { if (a[0] != 0) return ctorv::INVALID; return (a[1] >= 0 && a[2] > a[1]) ? ctorv::SILENT : ctorv::VALID; }, [](const double* a, int& st) { MagneticModel m(a[0] != 0 ? "nosuchfile" : "tiny", g_dir, Geocentric::WGS84(), (int)a[1], (int)a[2]); st = 1; double bx, by, bz; m(2022, 10, 20, 300, bx, by, bz); m.Circle(2022, 10, 300)(20, bx, by, bz); });
-  add("GravityModel(name,path,Nmax,Mmax)", "missing:b Nmax:i Mmax:i", {{0, -1, -1}, {0, 2, 1}}, [](const double* a) { if (a[0] != 0) return ctorv::INVALID; if (a[1] >= 0 && a[2] > a[1]) return ctorv::SILENT; return ctorv::VALID; }, [](const double* a, int& st) { GravityModel g(a[0] != 0 ? "nosuchfile" : "tiny", g_dir, (int)a[1], (int)a[2]); st = 1; double x, y, z; volatile double v = g.Gravity(10, 20, 300, x, y, z) + g.GeoidHeight(10, 20) + g.Circle(10, 300).Gravity(20, x, y, z); (void)v; });
+  add("Geoid(name,path,cubic,threadsafe)", "missing:b cubic:b threadsafe:b", {{0, 1, 0}}, [](const double* a) { return a[0] != 0 ? ctorv::inv("missing-file") : ctorv::VALID; }, [](const double* a, int& st) { Geoid g(a[0] != 0 ? "nosuchfile" : "tiny", g_dir, a[1] != 0, a[2] != 0); st = 1; volatile double v = g(10, 20) + g(-90, 0) + g(90, 359); (void)v; });
+  add("MagneticModel(name,path,earth,Nmax,Mmax)", "missing:b Nmax:i Mmax:i", {{0, -1, -1}, {0, 2, 1}}, [](const double* a) { if (a[0] != 0) return ctorv::inv("missing-file"); return (a[1] >= 0 && a[2] > a[1]) ? ctorv::SILENT : ctorv::VALID; }, [](const double* a, int& st) { MagneticModel m(a[0] != 0 ? "nosuchfile" : "tiny", g_dir, Geocentric::WGS84(), (int)a[1], (int)a[2]); st = 1; double bx, by, bz; m(2022, 10, 20, 300, bx, by, bz); m.Circle(2022, 10, 300)(20, bx, by, bz); });
+  add("GravityModel(name,path,Nmax,Mmax)", "missing:b Nmax:i Mmax:i", {{0, -1, -1}, {0, 2, 1}}, [](const double* a) { if (a[0] != 0) return ctorv::inv("missing-file"); if (a[1] >= 0 && a[2] > a[1]) return ctorv::SILENT; return ctorv::VALID; }, [](const double* a, int& st) { GravityModel g(a[0] != 0 ? "nosuchfile" : "tiny", g_dir, (int)a[1], (int)a[2]); st = 1; double x, y, z; volatile double v = g.Gravity(10, 20, 300, x, y, z) + g.GeoidHeight(10, 20) + g.Circle(10, 300).Gravity(20, x, y, z); (void)v; });
   return R;
 }
 
@@ -179,6 +186,7 @@ static void enumerate(const Ctor& c, bool T, std::vector<std::vector<double>>& o
     if (prod <= 300000) {
       std::vector<size_t> idx(n, 0);
       while (true) { std::vector<double> t(n); for (size_t i = 0; i < n; ++i) t[i] = al[i][idx[i]]; push(t); size_t p = 0; while (p < n && ++idx[p] == al[p].size()) idx[p++] = 0; if (p == n) break; }
+      for (auto& b : c.bases) for (size_t i = 0; i < n; ++i) for (double x : singles_only(c.kinds[i])) { std::vector<double> t = b; t[i] = x; push(t); }
       how = "full product"; return;
     }
   }
@@ -187,6 +195,7 @@ static void enumerate(const Ctor& c, bool T, std::vector<std::vector<double>>& o
   for (auto& b : c.bases) {
     push(b);
     std::vector<std::vector<double>> al(n); for (size_t i = 0; i < n; ++i) al[i] = alphabet(c.kinds[i], b[i], T);
+    for (size_t i = 0; i < n; ++i) for (double x : singles_only(c.kinds[i])) { std::vector<double> t = b; t[i] = x; push(t); }
     for (size_t i = 0; i < n; ++i) for (double x : al[i]) {
       std::vector<double> t = b; t[i] = x; push(t);
       if (maxsub >= 2) for (size_t j = i + 1; j < n; ++j) for (double y : al[j]) {
@@ -216,7 +225,8 @@ int main(int argc, char** argv) {
     ctx.bound("ctor-" + c.name, std::to_string(tuples.size()) + " tuples (" + how + ") over " + c.spec);
     auto show = [&](const std::vector<double>& t) { std::string s = c.name + "("; for (size_t i = 0; i < t.size(); ++i) s += (i ? ", " : "") + c.names[i] + "=" + fmt(t[i]); return s + ")"; };
     auto fields = [&](const std::vector<double>& t, const char* kind, V v) {
-      mc::Fields f = {{"kind", kind}, {"ctor", c.name}, {"model", ctorv::name(v)}};
+      mc::Fields f = {{"kind", kind}, {"class", c.name.substr(0, c.name.find_first_of("(:"))}, {"ctor", c.name}, {"model", ctorv::name(v)}};
+      if (v == ctorv::INVALID) f.push_back({"rule", ctorv::rule()});
       std::string cls; for (size_t i = 0; i < t.size(); ++i) { bool isbase = false; for (auto& b : c.bases) if (mc::same_bits(b[i], t[i])) isbase = true; if (!isbase) cls += (cls.empty() ? "" : ",") + c.names[i] + "=" + (c.kinds[i] == 'i' || c.kinds[i] == 'n' || c.kinds[i] == 'b' ? fmt(t[i]) : std::string(fault::value_class(t[i]))); }
       f.push_back({"args", cls});
       return f;
@@ -224,12 +234,14 @@ int main(int argc, char** argv) {
     for (size_t u0 = 0; u0 < tuples.size(); u0 += UNIT) {
       if (!ctx.take()) continue;
       size_t u1 = std::min(tuples.size(), u0 + UNIT);
+      iso.skip_confirm = [&](size_t i) { const std::vector<double>& t = tuples[u0 + i]; return fault::matches_known(ctx, "hang", fields(t, "hang", c.valid(t.data()))); };
       iso.run(u1 - u0,
         [&](size_t i, Report& rep) {
           const std::vector<double>& t = tuples[u0 + i];
           V v = c.valid(t.data());
           int stage = 0;
           Thrown th = fault::guarded([&] { c.make(t.data(), stage); });
+          v = c.valid(t.data());        // (sets ctorv::rule() again: the smoke calls may have evaluated other predicates)
           rep.sig(uint64_t(v) * 100 + th.oc * 4 + stage);
           if (!fault::clean(th.oc)) { auto f = fields(t, "foreign-exception", v); f.push_back({"exception", th.what.substr(0, th.what.find(':'))}); f.push_back({"stage", stage ? "use" : "construct"}); rep.fail(show(t) + "|exc", show(t) + " threw " + th.what + (stage ? " in a member call after construction" : ""), f); return; }
           if (stage == 0) {      // the constructor itself threw (GeographicErr or bad_alloc)
